@@ -704,7 +704,8 @@ func (b *builder) cellXML(sb *strings.Builder, p string, c *Cell) {
 	case Shared, SharedRich:
 		fmt.Fprintf(sb, ` t="s">%s`, v(strconv.Itoa(b.index[c])))
 	case Inline:
-		fmt.Fprintf(sb, ` t="inlineStr"><%[1]sis>%[2]s</%[1]sis>`, p, tElem(p, c.Text))
+		// CT_Cell: f, v, is in this order; an inline string may carry the formula it was computed from
+		fmt.Fprintf(sb, ` t="inlineStr">%[3]s<%[1]sis>%[2]s</%[1]sis>`, p, tElem(p, c.Text), f)
 	case FormulaStr:
 		fmt.Fprintf(sb, ` t="str">%s%s`, f, v(c.Text))
 	case FormulaNum, Number:
